@@ -176,7 +176,8 @@ ClampSig(e) ==
       B == Rng(Strip(NonCopy(last[e.b].ms)))
       D == (A \ B) \cup (B \ A)
       C == {x \in D : x.k \in Rng(e.clampsA)}
-  IN C # {} /\ \A x \in D \ C : \E y \in C : ~(x.el < y.sl \/ y.el < x.sl)
+  IN /\ C # {} /\ \A x \in D \ C : \E y \in C : ~(x.el < y.sl \/ y.el < x.sl)
+     /\ C \cap B = {} \/ C \cap A # {}     \* the recorded finding: a clamped document is matched alone but not behind other text
 
 PairOK(e) ==
   \/ PairCore(e)
